@@ -100,6 +100,8 @@ func (h *Handler) findOrCreate(clientID []byte, mac net.HardwareAddr, name strin
 		}
 		Logger.Msg("client changed subnet").ByteArray("clientID", lease.ClientID).
 			String("from", lease.subnet.LAN.String()).String("to", subnet.LAN.String()).Write()
+		// the replaced lease may be in the lease file: rewrite it once the new lease is in the table
+		defer h.saveConfig(h.filename)
 	}
 
 	lease = &Lease{}
@@ -189,13 +191,18 @@ func (h *Handler) allocIPOffer(lease *Lease, reqIP netip.Addr) error {
 }
 
 func (h *Handler) freeLeases(now time.Time) error {
+	freed := false
 	for _, lease := range h.table {
 		if lease.State != StateFree && lease.DHCPExpiry.Before(now) {
 			if Logger.IsInfo() {
 				Logger.Msg("freeing lease").Struct(lease).Write()
 			}
 			lease.State = StateFree
+			freed = true
 		}
+	}
+	if freed {
+		h.saveConfig(h.filename) // expired bindings leave the lease file as well
 	}
 	return nil
 }
